@@ -5,3 +5,4 @@ pub mod c16;
 pub mod c17;
 pub mod c18;
 pub mod c19;
+pub mod fields;
